@@ -36,6 +36,7 @@ type HarnessSpec struct {
 	Desc     string
 	Quick    *Tier
 	Thorough *Tier
+	Solver   string
 	Isolate  bool // replay every case in its own process (termination harnesses)
 	Bounds   string
 }
@@ -159,6 +160,7 @@ func cmdCheck(args []string) int {
 	totalViol := 0
 	totalValidated := 0
 	var knownLines []string
+	seenViol := map[string]bool{}
 
 	for _, h := range spec.Harnesses {
 		tier := h.Quick
@@ -177,7 +179,7 @@ func cmdCheck(args []string) int {
 		sx.Params = tier.Params
 		cfg := sx.HarnessCfg{Pkg: sx.RepoModule + "/" + h.Pkg, Func: h.Func, Workers: *workers, MaxPaths: tier.MaxPaths,
 			LoopBound: tier.LoopBound, MaxInstr: tier.MaxInstr, MaxDeviations: tier.Deviations,
-			SolverTimeoutMS: tier.TimeoutMS, SampleModels: tier.Samples, Seed: seed,
+			SolverTimeoutMS: tier.TimeoutMS, Solver: h.Solver, SampleModels: tier.Samples, Seed: seed,
 			DumpDir: filepath.Join(verifDir, ".work", "unknown")}
 		if tier.DeadlineS > 0 {
 			cfg.Deadline = time.Duration(tier.DeadlineS) * time.Second
@@ -240,6 +242,10 @@ func cmdCheck(args []string) int {
 				}
 				he.Violations++
 				totalViol++
+				if seenViol[h.Func+"|"+v.Label] {
+					continue
+				}
+				seenViol[h.Func+"|"+v.Label] = true
 				rp := filepath.Join(verifDir, "evidence", "replays", fmt.Sprintf("%s-%s-%d.json", prop, h.Func, k))
 				os.MkdirAll(filepath.Dir(rp), 0o755)
 				rb, _ := json.MarshalIndent(map[string]any{"property": prop, "pkg": h.Pkg, "harness": h.Func, "kind": v.Kind, "label": v.Label,
